@@ -169,6 +169,26 @@ func recoverImage(cfg hapi.Config, im vos.Image, at int64, second bool) recovere
 	return res
 }
 
+// followerStart starts a full node configured as follower of an unreachable leader on the image and reports
+// whether the start itself succeeds (a follower reads the tail of its newest append file to learn its position).
+func followerStart(cfg hapi.Config, im vos.Image, at int64) (startErr string, crash string) {
+	fc := cfg
+	fc.SlaveOf = "127.0.0.1:5999"
+	rt := vrt.Run(vrt.Options{MaxPoints: 100_000_000, StartNow: at}, func() {
+		vos.Install(vos.FromImage(im))
+		node := hapi.Factories["n0"](fc)
+		if err := node.Start(); err != nil {
+			startErr = err.Error()
+			return
+		}
+		vrt.AdvanceTo(at + 100*ms)
+	})
+	if rt.Crash != nil {
+		crash = rt.Crash.Value + "\n" + stableStack(firstLines(rt.Crash.Stack, 12))
+	}
+	return
+}
+
 // valueMissing: the newest append file contains a value-carrying record whose value is not (fully) in
 // the value file — the situation of a crash between the record write and the value write of one flush.
 func valueMissing(im vos.Image) bool {
@@ -444,6 +464,13 @@ func evalC08(c *Ctx, cs EnumCase) EnumResult {
 				what += " (torn header)"
 			}
 			judge(what, im, max)
+			// the same image under a node that starts as a follower
+			res.Sub++
+			if se, cr := followerStart(cfg, im, at); cr != "" {
+				vs = append(vs, explore.Violation{Sig: "C08:recovery-crash/follower", Msg: what + ", node started as a follower: " + cr})
+			} else if se != "" {
+				vs = append(vs, explore.Violation{Sig: "C08:start-failed/follower", Msg: fmt.Sprintf("%s: a node configured as a follower does not start: %s", what, se)})
+			}
 		}
 	case "dat-cut":
 		dn := na + ".dat"
